@@ -398,8 +398,21 @@ def check_frame(modinfo, rel, shapes=(), roots=None, allow_self_rebind=True, sel
             # what lies deeper (elements, qualifier values) may be shared with an input and keeps the old verdict
             if m_ and shallow and _param_always_fresh(modinfo, qual, m_.group(0)):
                 continue      # written through a parameter that only ever receives objects made by the caller: not an input
-        bad.append("%s::%s line %d: `%s` writes through the path %s" % (rel, qual, s.lineno, s.text, s.shape))
+        bad.append(Hit("%s::%s line %d: `%s` writes through the path %s" % (rel, qual, s.lineno, s.text, s.shape), r))
     return bad
+
+
+class Hit(str):
+    """a store outside the frame, with the root of its access path: a parameter, self, a module-level name, the class
+    (`definite`: the object written is reachable from an input or from shared state), or a local of unknown provenance"""
+    def __new__(cls, text, root):
+        o = str.__new__(cls, text)
+        o.root = root
+        return o
+
+    @property
+    def definite(self):
+        return self.root not in ("L", "?", "E")
 
 
 def memoised(modinfo, rel):
